@@ -606,15 +606,26 @@ impl<T: Object> Object for Vec<T> {
         Ok(
         match p {
             Primitive::Array(_) => {
-                p.resolve(r)?.into_array()?
-                    .into_iter()
-                    .map(|p| T::from_primitive(p, r))
-                    .collect::<Result<Vec<T>>>()?
+                let mut items = Vec::new();
+                for p in p.resolve(r)?.into_array()? {
+                    match T::from_primitive(p.clone(), r) {
+                        Ok(item) => items.push(item),
+                        // an element that refers to a missing object is null: there is nothing to add
+                        Err(ref e) if is_missing_reference(&p, e) => {}
+                        Err(e) => return Err(e)
+                    }
+                }
+                items
             },
             Primitive::Null => {
                 Vec::new()
             }
-            Primitive::Reference(id) => Self::from_primitive(r.resolve(id)?, r)?,
+            Primitive::Reference(id) => match r.resolve(id) {
+                Ok(p) => Self::from_primitive(p, r)?,
+                // a reference to a missing object is null
+                Err(ref e) if is_missing_reference(&p, e) => Vec::new(),
+                Err(e) => return Err(e)
+            },
             _ => vec![T::from_primitive(p, r)?]
         }
         )
@@ -706,7 +717,12 @@ impl<V: Object> Object for HashMap<Name, V> {
             Primitive::Dictionary (dict) => {
                 let mut new = Self::new();
                 for (key, val) in dict.iter() {
-                    new.insert(key.clone(), V::from_primitive(val.clone(), resolve)?);
+                    match V::from_primitive(val.clone(), resolve) {
+                        Ok(v) => { new.insert(key.clone(), v); }
+                        // a value that refers to a missing object is null: the entry is absent
+                        Err(ref e) if is_missing_reference(val, e) => {}
+                        Err(e) => return Err(e)
+                    }
                 }
                 Ok(new)
             }
